@@ -40,6 +40,9 @@ def cases(rng, tier, X):
             for _ in range(3):
                 ops.append('rx 1 ' + F.query(mapper, b, rng.randrange(1, 65536)))
         out.append(('p%d' % k, ops))
+    # universal traffic (every frame type / sender / path / service / boundary value, 1..3 interfaces): this check's predicate on it
+    for k in range(60 if tier == 'quick' else 6000):
+        out.append(('u%d' % k, F.universal(rng)))
     return out
 
 
